@@ -318,6 +318,7 @@ def im2col(a:np.ndarray, kernel_size, dilation=1, stride=1, padding=0, pad_value
            [5., 6., 8., 9.]])
     """
     
+    kernel_size = np.broadcast_to(kernel_size, 2) # int or tuple, as documented
     padding = np.broadcast_to(padding, 2)
     # Pad input
     x_padded = np.pad(
